@@ -69,9 +69,25 @@ func genMethodString(t *rapid.T, reg []string) string {
 	base := rapid.SampledFrom(bases).Draw(t, "mbase")
 	meth := rapid.SampledFrom([]string{"M", "Ping", "GetInfo", "GetInterfaceDescription", "x", "", "É", "M N", "0"}).Draw(t, "mname")
 	full := base + "." + meth
-	switch rapid.IntRange(0, 15).Draw(t, "medit") {
+	switch rapid.IntRange(0, 17).Draw(t, "medit") {
 	case 0, 1, 2, 3, 4:
 		return full
+	case 16, 17: // a long interface part or method name (echoed in full by the error replies), ASCII or multi-byte
+		unit := rapid.SampledFrom([]string{"a", "Ab0", "é", "€x", "😀", "long-"}).Draw(t, "munit")
+		n := rapid.SampledFrom([]int{254, 255, 256, 257, 300, 1000, 5000}).Draw(t, "mlen")
+		long := strings.Repeat(unit, n/len(unit)+1)
+		for !utf8.ValidString(long[:n]) {
+			n++
+		}
+		long = long[:n]
+		switch rapid.IntRange(0, 2).Draw(t, "mwhere") {
+		case 0:
+			return long + "." + meth // unknown interface
+		case 1:
+			return base + "." + long // unknown method of a known or unknown interface
+		default:
+			return "pre." + long + ".Sub." + meth
+		}
 	case 5: // drop a dot
 		if i := strings.Index(full, "."); i >= 0 {
 			k := rapid.IntRange(0, strings.Count(full, ".")-1).Draw(t, "mdot")
@@ -174,7 +190,8 @@ func genC04(t *rapid.T) ProtoCase {
 			p = replyIDScript(0, i)
 		}
 		flags := rapid.IntRange(0, 15).Draw(t, "flags") // mostly plain
-		cc.Frames = append(cc.Frames, EncodeCall(m, p, flags == 1, flags == 2, flags == 3))
+		// (routing depends on the method string alone: also for the flag combinations a Go client never sends)
+		cc.Frames = append(cc.Frames, EncodeCall(m, p, flags == 1 || flags == 4 || flags == 5 || flags == 7, flags == 2 || flags == 4 || flags == 6 || flags == 7, flags == 3 || flags == 5 || flags == 6 || flags == 7))
 	}
 	cc.Cuts = genCuts(t, cc.stream())
 	c.Conns = []ConnCase{cc}
